@@ -5,6 +5,7 @@ import (
 	"os"
 	"sort"
 	"strings"
+	"sync"
 	"testing"
 
 	"pgregory.net/rapid"
@@ -74,19 +75,17 @@ func situation(p Program) string {
 	return fmt.Sprintf("%s(%s)", name, kindOf(w, m.P))
 }
 
+// observerKinds: "readdir" if a listing is among the observations (a listing is itself several store transactions:
+// names first, then every entry), else "plain" (stat, cat).
 func observerKinds(p Program) string {
-	set := map[string]bool{}
 	for _, th := range p.Threads[1:] {
 		for _, o := range th {
-			set[o.K] = true
+			if o.K == "readdir" {
+				return "readdir"
+			}
 		}
 	}
-	var ks []string
-	for k := range set {
-		ks = append(ks, k)
-	}
-	sort.Strings(ks)
-	return strings.Join(ks, "+")
+	return "plain"
 }
 
 // obsClass identifies a finding of this leg.
@@ -131,15 +130,8 @@ func checkObserved(p Program, maxPre int, count *int) (string, string, []int) {
 func obsProbe(sig string) (bool, string) {
 	rest := strings.TrimPrefix(sig, "C15:obs:")
 	i := strings.LastIndex(rest, "/")
-	wantSit, wantObs := rest[:i], strings.Split(rest[i+1:], "+")
-	var obs []Op
-	for _, o := range observerCandidates() {
-		for _, k := range wantObs {
-			if o.K == k {
-				obs = append(obs, o)
-			}
-		}
-	}
+	wantSit := rest[:i]
+	obs := observerCandidates()
 	for _, setup := range obsSetups {
 		for _, m := range mutatorCandidates() {
 			base := Program{Setup: setup, Threads: [][]Op{{m}, nil}}
@@ -169,24 +161,17 @@ func obsProbe(sig string) (bool, string) {
 
 func genObserverProgram(rt *rapid.T, rec *vf.Rec) Program {
 	p := Program{Setup: rapid.SampledFrom(obsSetups).Draw(rt, "setup")}
-	nobs := rapid.IntRange(1, 2).Draw(rt, "observers")
-	threads := [][]Op{nil}
-	for t := 0; t < nobs; t++ {
-		n := rapid.IntRange(1, 3).Draw(rt, "nobs")
-		if t == 0 && n == 1 && nobs == 1 {
-			n = 2 // a single observation of a single operation is always serializable
-		}
-		var th []Op
-		for i := 0; i < n; i++ {
-			th = append(th, Op{K: rapid.SampledFrom(obsKinds).Draw(rt, "ok"), P: rapid.SampledFrom(obsPaths).Draw(rt, "op")})
-		}
-		threads = append(threads, th)
+	// 1. do listings observe? 2. the mutator, from the candidates whose class is not a listed, still reproducing finding
+	// (construction, not rejection). 3. the observations, mostly aimed at the mutator's own paths and their parents.
+	withReaddir := rapid.Bool().Draw(rt, "with-readdir")
+	marker := Op{K: "stat", P: "."}
+	if withReaddir {
+		marker = Op{K: "readdir", P: "."}
 	}
-	// the mutator is drawn from the candidates whose class is not a listed, still reproducing finding (construction, not rejection)
 	var cands []Op
 	excluded := 0
 	for _, m := range mutatorCandidates() {
-		q := Program{Setup: p.Setup, Threads: append([][]Op{{m}}, threads[1:]...)}
+		q := Program{Setup: p.Setup, Threads: [][]Op{{m}, {marker}}}
 		if vf.Known(obsClass(q)) {
 			excluded++
 			continue
@@ -196,7 +181,66 @@ func genObserverProgram(rt *rapid.T, rec *vf.Rec) Program {
 	if excluded > 0 {
 		rec.Excluded("C15:obs:known-classes")
 	}
-	threads[0] = []Op{rapid.SampledFrom(cands).Draw(rt, "mutator")}
+	// mostly a mutator that takes effect in the set-up state (a failing one has no intermediate state to show),
+	// drawn by situation first so that rare situations are as likely as common ones
+	bySit := map[string][]Op{}
+	var sits []string
+	for _, m := range cands {
+		q := Program{Setup: p.Setup, Threads: [][]Op{{m}}}
+		w := newPlainWorld(q)
+		if apply(w, 0, m) != "ok" {
+			continue
+		}
+		sit := situation(q)
+		if bySit[sit] == nil {
+			sits = append(sits, sit)
+		}
+		bySit[sit] = append(bySit[sit], m)
+	}
+	var m Op
+	if len(sits) > 0 && rapid.IntRange(0, 9).Draw(rt, "effective") < 8 {
+		m = rapid.SampledFrom(bySit[rapid.SampledFrom(sits).Draw(rt, "situation")]).Draw(rt, "mutator")
+	} else {
+		m = rapid.SampledFrom(cands).Draw(rt, "mutator")
+	}
+	near := []string{m.P}
+	if m.K == "rename" {
+		near = append(near, m.P2)
+	}
+	if withReaddir {
+		// a listing observes a path through its parent
+		for _, q := range append([]string{}, near...) {
+			near = append(near, parent(q))
+		}
+	}
+	kinds := []string{"stat", "stat", "cat"}
+	if withReaddir {
+		kinds = []string{"stat", "readdir", "readdir", "cat"}
+	}
+	nobs := rapid.IntRange(1, 2).Draw(rt, "observers")
+	threads := [][]Op{{m}}
+	hasReaddir := false
+	for t := 0; t < nobs; t++ {
+		n := rapid.IntRange(1, 3).Draw(rt, "nobs")
+		if nobs == 1 && n == 1 {
+			n = 2
+		}
+		var th []Op
+		for i := 0; i < n; i++ {
+			o := Op{K: rapid.SampledFrom(kinds).Draw(rt, "ok")}
+			if rapid.IntRange(0, 9).Draw(rt, "near") < 7 {
+				o.P = rapid.SampledFrom(near).Draw(rt, "np")
+			} else {
+				o.P = rapid.SampledFrom(obsPaths).Draw(rt, "op")
+			}
+			hasReaddir = hasReaddir || o.K == "readdir"
+			th = append(th, o)
+		}
+		threads = append(threads, th)
+	}
+	if withReaddir && !hasReaddir {
+		threads[1][0].K = "readdir"
+	}
 	p.Threads = threads
 	return p
 }
@@ -219,6 +263,88 @@ func TestObservers(t *testing.T) {
 		if sig != "" {
 			rec.Step(Case{Program: p, Choices: trace})
 			rec.Failf(rt, sig, "%s", msg)
+		}
+	})
+}
+
+// canonicalObserverPrograms: for every set-up and every mutator that takes effect there, the observation pairs aimed at
+// its own paths in both orders (stat X then stat Y; list X's parent then Y's parent), minus the listed known classes.
+// Finite and small, so the quick tier walks all of it: the "seen under both names / under neither" patterns do not
+// depend on a lucky draw.
+func canonicalObserverPrograms() (progs []Program, excluded int) {
+	for _, setup := range obsSetups {
+		for _, m := range mutatorCandidates() {
+			q := Program{Setup: setup, Threads: [][]Op{{m}}}
+			if apply(newPlainWorld(q), 0, m) != "ok" {
+				continue
+			}
+			own := []string{m.P}
+			if m.K == "rename" && m.P2 != m.P {
+				own = append(own, m.P2)
+			}
+			var obs [][]Op
+			for _, x := range own {
+				for _, y := range own {
+					if x != y {
+						obs = append(obs, []Op{{K: "stat", P: x}, {K: "stat", P: y}}, []Op{{K: "cat", P: x}, {K: "cat", P: y}})
+					}
+					obs = append(obs, []Op{{K: "readdir", P: parent(x)}, {K: "readdir", P: parent(y)}})
+				}
+				if par := parent(x); par != "." {
+					obs = append(obs, []Op{{K: "stat", P: par}, {K: "stat", P: x}}, []Op{{K: "stat", P: x}, {K: "stat", P: par}})
+				}
+			}
+			for _, o := range obs {
+				p := Program{Setup: setup, Threads: [][]Op{{m}, o}}
+				if vf.Known(obsClass(p)) {
+					excluded++
+					continue
+				}
+				progs = append(progs, p)
+			}
+		}
+	}
+	return
+}
+
+func TestObserversCanonical(t *testing.T) {
+	progs, excluded := canonicalObserverPrograms()
+	type result struct {
+		sig, msg string
+		trace    []int
+		n        int
+	}
+	results := make([]result, len(progs))
+	var wg sync.WaitGroup
+	work := make(chan int)
+	for w := 0; w < 16; w++ {
+		wg.Add(1)
+		go func() {
+			defer wg.Done()
+			for i := range work {
+				r := &results[i]
+				r.sig, r.msg, r.trace = checkObserved(progs[i], 2, &r.n)
+			}
+		}()
+	}
+	for i := range progs {
+		work <- i
+	}
+	close(work)
+	wg.Wait()
+	vf.Each(t, "observers-canon", len(progs), true, func(i int, t *testing.T, rec *vf.Rec) {
+		p, r := progs[i], results[i]
+		if i == 0 && excluded > 0 {
+			rec.Count("excluded-known-class-programs", excluded)
+			rec.Excluded("C15:obs:known-classes")
+		}
+		rec.Step(p)
+		rec.Class("mutator:" + situation(p))
+		rec.NonTrivial()
+		rec.Count("schedules", r.n)
+		if r.sig != "" {
+			rec.Step(Case{Program: p, Choices: r.trace})
+			rec.Failf(t, r.sig, "%s", r.msg)
 		}
 	})
 }
